@@ -93,9 +93,7 @@ int main(int argc, char** argv)
             emit_off(a, b, tps); emit_inv(a, b, tps); emit_cmp(a, b, tps);
         }
         for (auto rs : ss) for (auto rt : tt) for (auto off : offs) {
-            // keep the sum representable: the statement covers instants below 2^63 ticks
-            __int128 total = static_cast<__int128>(rs) * tps + rt + off;
-            if (total > static_cast<__int128>(LIM)) continue;
+            // sums beyond 2^63 - 1 ticks are included: the result is unconstrained then, but the addition must be defined
             if (!mine()) continue;
             emit_add(Timestamp(rs, rt), off, tps);
         }
@@ -124,7 +122,7 @@ int main(int argc, char** argv)
                 int64_t off = static_cast<int64_t>(rng() >> (64 - ob));
                 if (rng() % 2) off = -off - 1;
                 __int128 total = static_cast<__int128>(rs) * tps + rt + off;
-                if (total > static_cast<__int128>(LIM)) off = -off;
+                if (total > static_cast<__int128>(LIM) && rng() % 4) off = -off;      // one in four stays beyond the range
                 emit_add(b, off, tps);
             }
         }
